@@ -183,6 +183,12 @@ def run_property(propmod, analysis=None, tier='quick', write=True, quiet=False, 
         except RecursionError as exc:
             ctx.errors.append(f'{rule_id}: internal RecursionError: {exc}')
         except Exception as exc:  # never let a traceback look like a violation
+            if getattr(exc, 'as_violation', False):
+                try:
+                    ctx.bad(ctx.mod(exc.module).func(exc.function), 'a well-formed witness workbook compiles', exc.why)
+                except AnalysisError as exc2:
+                    ctx.errors.append(f'{rule_id}: {type(exc2).__name__}: {exc2}')
+                continue
             import traceback
             tb = traceback.format_exc().strip().splitlines()
             ctx.errors.append(f'{rule_id}: internal {type(exc).__name__}: {exc} @ {tb[-3].strip() if len(tb) > 2 else ""}')
